@@ -1,7 +1,7 @@
 (* C03 — The detector error model is exactly the circuit's noise pushed onto detectors. *)
 From Coq Require Import List Bool String ZArith NArith QArith.
 Import ListNotations.
-Require Adj XorConv AdjGen TableAdj GenProofs_RevMeas.
+Require Adj XorConv AdjGen TableAdj GenProofs_RevMeas GenProofs_EaNoise.
 Require Import Stab Act Spec SpecProofs Gen_GateTable Gen_RevTrack GenProofs_RevTrack.
 
 (* (1) Tie G: every unitary undo_* routine of the reverse tracker (translated from sparse_rev_frame_tracker.cc), applied per
@@ -27,6 +27,10 @@ Theorem C03_revtrack_measure_reset_routines_match : GenProofs_RevMeas.revmeas_al
 Proof. exact GenProofs_RevMeas.revmeas_routines_match_adjgen. Qed.
 Theorem C03_analyzer_measure_reset_routines_match : GenProofs_RevMeas.ea_revmeas_all_ok = true.
 Proof. exact GenProofs_RevMeas.analyzer_measure_reset_routines_match_adjgen. Qed.
+(* the analyzer's noise routines (undo_X/Y/Z_ERROR, E products, DEPOLARIZE1/2, PAULI_CHANNEL_1/2 with its index arithmetic), regenerated
+   from source: every term flips exactly the detectors whose observable anticommutes with the documented Pauli of its argument *)
+Theorem C03_analyzer_noise_routines_match : GenProofs_EaNoise.ea_noise_all_ok = true.
+Proof. exact GenProofs_EaNoise.analyzer_noise_routines_match_adjgen. Qed.
 Print Assumptions C03_adjoint_all_gates. Print Assumptions C03_revtrack_routines_match_inverse_table.
 Print Assumptions C03_revtrack_routines_correct_2q.
 
